@@ -14,7 +14,7 @@ pub struct C15;
 
 const NAMES: &[&str] = &["a", "ab", "a_b", "b", "a_b_c", "b_c", "c", "b__c", "a_b__c", "a__b_c", "_a_b", "a_b_"];
 // (help texts that are also label names of the pool, bare and with the '$' that marks variable labels in the dimension hash)
-const HELPS: &[&str] = &["h", "hh", "h\u{ff}", "é", "h h", "a", "b", "ab", "$a", "$b", "A"];
+const HELPS: &[&str] = &["h", "hh", "h\u{ff}", "é", "h h", "a", "b", "ab", "$a", "$b", "A", "h ", " h", "h\t", " ", "H"];
 // (upper-case and underscore names: byte order, the order of `str`, differs from case-folded and from "alphabetical" order)
 const LNAMES: &[&str] = &["a", "b", "ab", "ba", "c", "A", "B", "Ab", "aB", "_", "a_", "Z"];
 const VALUES: &[&str] = &["", "a", "b", "ab", "ba", "é", "a\u{ff}", "\u{ff}"];
@@ -403,6 +403,21 @@ impl C15 {
             placement = false;
             long_component = true;
         }
+        // 1% of cases: two constant-label values of A and their twin in B that differ only in where one ends and the next begins AND
+        // have lengths that read the same modulo 256 (or 65536): encodings that put a narrow length field in front of each string
+        // instead of a separator after it go wrong exactly there
+        if !long_component && src.chance(3) {
+            let w = if src.chance(170) { 1 } else { 2 };
+            let ((v1, v2), (z1, z2)) = crate::pools::length_wrap_twins(w);
+            a.consts = vec![("a".to_string(), v1), ("b".to_string(), v2)];
+            a.vars.retain(|v| v != "a" && v != "b");
+            b = a.clone();
+            b.consts = vec![("a".to_string(), z1), ("b".to_string(), z2)];
+            only_order = false;
+            shift = true;
+            placement = false;
+            rep.class(if w == 1 { "length-wrap-twins(256)" } else { "length-wrap-twins(65536)" });
+        }
         let da = match build(&a) {
             Ok(d) => d,
             Err(e) => return fail("valid-descriptor-rejected", format!("{:?}: {}", a, e)),
@@ -480,7 +495,8 @@ impl C15 {
         rep.class(if same_id { "same-identity" } else { "different-identity" });
         rep.class(if same_dim { "same-dimensions" } else { "different-dimensions" });
         if rep.want_sample {
-            rep.sample = Some(format!("A={:?} B={:?} same_id={} same_dim={}", a, b, same_id, same_dim));
+            let text = format!("A={:?} B={:?} same_id={} same_dim={}", a, b, same_id, same_dim);
+            rep.sample = Some(if text.len() > 4000 { format!("{} ... ({} bytes)", text.chars().take(600).collect::<String>(), text.len()) } else { text });
         }
         Verdict::Pass
     }
